@@ -1,0 +1,49 @@
+//! Verification hooks (compiled only with `--cfg gdsl_verif`).
+//!
+//! `lock_point` is called immediately before every acquisition of a node's
+//! adjacency lock in the sync flavours. Without an installed callback it does
+//! nothing.
+use std::cell::RefCell;
+use std::rc::Rc;
+use std::sync::{RwLock, TryLockError};
+
+#[derive(Clone, Copy, Debug, PartialEq, Eq)]
+pub enum Mode {
+    Read,
+    Write,
+}
+
+pub trait LockProbe {
+    fn addr(&self) -> usize;
+    fn would_block(&self, mode: Mode) -> bool;
+}
+
+impl<T> LockProbe for RwLock<T> {
+    fn addr(&self) -> usize {
+        self as *const Self as *const () as usize
+    }
+    fn would_block(&self, mode: Mode) -> bool {
+        match mode {
+            Mode::Read => matches!(self.try_read(), Err(TryLockError::WouldBlock)),
+            Mode::Write => matches!(self.try_write(), Err(TryLockError::WouldBlock)),
+        }
+    }
+}
+
+pub type Callback = Rc<dyn Fn(&dyn LockProbe, Mode)>;
+
+thread_local! {
+    static CALLBACK: RefCell<Option<Callback>> = const { RefCell::new(None) };
+}
+
+pub fn install(cb: Option<Callback>) {
+    CALLBACK.with(|c| *c.borrow_mut() = cb);
+}
+
+#[inline]
+pub fn lock_point<T>(lock: &RwLock<T>, mode: Mode) {
+    let cb = CALLBACK.with(|c| c.borrow().clone());
+    if let Some(cb) = cb {
+        cb(lock, mode);
+    }
+}
